@@ -29,6 +29,14 @@ type scen struct {
 func body(sc scen) func() {
 	return func() {
 		e := sigh.NewE2E("A", "B")
+		for _, f := range sc.faults {
+			if strings.HasPrefix(f, "silent-break-a") {
+				e.Relays["A"].DetachFirst = true
+			}
+			if strings.HasPrefix(f, "silent-break-b") {
+				e.Relays["B"].DetachFirst = true
+			}
+		}
 		pending := map[string]bool{}
 		var wg vsync.WaitGroup
 		start := func(name string, fn func()) {
@@ -41,37 +49,68 @@ func body(sc scen) func() {
 				delete(pending, name)
 			})
 		}
+		// startBg: a thread that runs until shutdown (receivers); not part of "pending"
+		startBg := func(name string, fn func()) {
+			wg.Add(1)
+			vsync.GoNamed(name, func() {
+				defer wg.Done()
+				fn()
+			})
+		}
 		start("sendA", func() {
 			for i := 0; i < sc.nmsg; i++ {
 				e.Send(e.Ctx, "A", "B", fmt.Sprintf("m%d", i+1))
 			}
 		})
-		start("recvB", func() {
+		startBg("recvB", func() {
 			if sc.reattachB {
 				// B drops its peer reference and takes a new one before receiving
 				e.Ref("B", "A")
 				vsync.Yield("reattach")
 				e.Reattach("B", "A")
 			}
-			for i := 0; i < sc.nmsg; i++ {
-				e.Recv(e.Ctx, "B", "A")
+			// the application keeps receiving (delivery is at least once: after a
+			// reconnect a message may arrive again, and its ack needs a receiver)
+			for e.RecvOK(e.Ctx, "B", "A") {
 			}
 		})
 		if sc.both {
 			start("sendB", func() { e.Send(e.Ctx, "B", "A", "n1") })
-			start("recvA", func() { e.Recv(e.Ctx, "A", "B") })
+			startBg("recvA", func() {
+				for e.RecvOK(e.Ctx, "A", "B") {
+				}
+			})
 		}
 		faultsDone := false
+		// "@n1-forwarded": the fault fires at an arbitrary point AFTER the relay has
+		// put B's message n1 on A's stream (a fault thread that may fire anywhere
+		// fires early by default, and each postponement costs a deviation)
+		n1Forwarded := make(chan struct{})
+		fwdOnce := false
+		e.OnTap = func(label, desc string) {
+			if !fwdOnce && strings.HasPrefix(label, "srv>a.") && strings.HasPrefix(desc, "RecvMsg(n1") {
+				fwdOnce = true
+				close(vsync.C(n1Forwarded))
+			}
+		}
 		wg.Add(1)
 		vsync.GoNamed("fault", func() {
 			defer wg.Done()
 			for _, f := range sc.faults {
+				if strings.HasSuffix(f, "@n1-forwarded") {
+					f = strings.TrimSuffix(f, "@n1-forwarded")
+					<-vsync.R(n1Forwarded)
+				}
 				vsync.Yield("fault " + f)
 				switch f {
 				case "break-a":
 					e.BreakSession("A")
 				case "break-b":
 					e.BreakSession("B")
+				case "silent-break-a":
+					e.BreakSessionSilently("A")
+				case "silent-break-b":
+					e.BreakSessionSilently("B")
 				}
 			}
 			vsync.Touch(&pending)
@@ -103,6 +142,8 @@ func TestC23(t *testing.T) {
 		{"break-b", []string{"break-b"}, 1, false, false},
 		{"break-a", []string{"break-a"}, 1, false, false},
 		{"reattach-b", nil, 1, false, true},
+		// the client's stream fails without the relay noticing: the retry usurps the old, still registered call
+		{"both-ways-silent-break-a", []string{"silent-break-a"}, 1, true, false},
 	}
 	if !run.Quick() {
 		bound = 2
@@ -111,6 +152,7 @@ func TestC23(t *testing.T) {
 			scen{"both-ways-break-b", []string{"break-b"}, 1, true, false},
 			scen{"break-b-twice", []string{"break-b", "break-b"}, 1, false, false},
 			scen{"break-both", []string{"break-a", "break-b"}, 1, false, false},
+			scen{"both-ways-silent-break-a-after-b's-message-was-forwarded", []string{"silent-break-a@n1-forwarded"}, 1, true, false},
 		)
 	}
 	if b := os.Getenv("VERIF_BOUND"); b != "" {
@@ -156,7 +198,11 @@ func TestC23(t *testing.T) {
 	s2bound := bound + 1
 	mc.RunScenarios(t, agg, len(s2s), func(i int) *vsync.Config {
 		sc := s2s[i]
-		return &vsync.Config{Name: "client-s2/" + sc.name, Bound: s2bound, Delay: true, Deadline: run.Deadline(), MaxStep: 20000, Horizon: 10 * time.Minute,
+		b := s2bound
+		if run.Quick() && sc.detaches > 0 && sc.fails > 0 {
+			b = bound // the largest client-only scenario keeps the end-to-end bound in the quick tier (90 k executions otherwise)
+		}
+		return &vsync.Config{Name: "client-s2/" + sc.name, Bound: b, Delay: true, Deadline: run.Deadline(), MaxStep: 20000, Horizon: 10 * time.Minute,
 			Body: s2body(sc.nmsg, sc.reopens, sc.fails, sc.resets, sc.detaches),
 			Check: func(x *vsync.Exec) string {
 				if x.HorizonHit {
@@ -174,9 +220,11 @@ func TestC23(t *testing.T) {
 	// nothing may be left queued at the relay for an attached peer
 	s1 := []sigh.Scen{
 		{"slow-receiver/sender-reattaches-then-sends", [][]string{{"attach:a1:A:B", "attachs:b1:B:A", "wait", "cancel:a1", "wait", "attach:a2:A:B", "wait", "send:a2:m1", "wait", "resume:b1", "wait"}}},
-		{"slow-receiver/send-in-flight-across-reattach", [][]string{{"attach:a1:A:B", "attachs:b1:B:A", "wait", "send:a1:m1", "cancel:a1", "attach:a2:A:B", "wait", "send:a2:m2", "wait", "resume:b1", "wait"}}},
 		{"slow-receiver/sender-usurps-then-sends", [][]string{{"attach:a1:A:B", "attachs:b1:B:A", "wait", "attach:a2:A:B", "wait", "send:a2:m1", "wait", "resume:b1", "wait"}}},
 		{"receiver-stalls-later/sender-reattaches-then-sends", [][]string{{"attach:a1:A:B", "attach:b1:B:A", "wait", "stall:b1", "cancel:a1", "wait", "attach:a2:A:B", "wait", "send:a2:m1", "wait", "resume:b1", "wait"}}},
+	}
+	if !run.Quick() {
+		s1 = append(s1, sigh.Scen{"slow-receiver/send-in-flight-across-reattach", [][]string{{"attach:a1:A:B", "attachs:b1:B:A", "wait", "send:a1:m1", "cancel:a1", "attach:a2:A:B", "wait", "send:a2:m2", "wait", "resume:b1", "wait"}}})
 	}
 	sigh.ExploreS1(t, run, agg, "V23:", s1, bound)
 	agg.Finish(true)
